@@ -85,6 +85,13 @@ def faultReply (b : Backend) (kind : String) (nice : Reply) (g : Nat) : Reply :=
   | "httpstatus" => { status200 := false }
   | "malformed" => { parses := false }
   | "jobfail" => { flags := [.wellFormed] }
+  -- mixed output of one configuration command: any line that is neither INFO: nor WARNING: makes it a failure
+  | "warn_then_err" => { out := .text, flags := [.hash] }
+  | "info_then_err" => { out := .text, flags := [.hash] }
+  | "err_then_warn" => { out := .text, flags := [.hash] }
+  | "warns_then_err" => { out := .text, flags := [.hash] }
+  | "warns_only" => { out := .warning, flags := [.hash] }
+  | "info_then_warn" => { out := .warning, flags := [.hash] }
   | "jobfail_success" => { flags := [.wellFormed] }        -- job result FAIL whose details mention OK / success
   | "savefail" => { out := .text, flags := [.hash] }       -- multi-line save failure with fragments of a good answer, no [OK]
   | "savefail_ok" => { out := .text, flags := [.okMark, .hash] } -- an error sentence that happens to contain "[OK]"
